@@ -69,7 +69,7 @@ PRESETS = [
 
 
 def plan(tier: str, seed: int):
-    n_per = 11 if tier == "quick" else 1920
+    n_per = 22 if tier == "quick" else 1920
     cases = []
     for name, over, semirings in PRESETS:
         for k in range(n_per):
